@@ -73,9 +73,15 @@ def client_random(rng, n):
     t, to, p = client_params(rng)
     ops = ["start %d %d %d" % (t, to, p)]
     ns = 0
+    chatty = rng.random() < 0.5      # a peer that mostly keeps talking: long lives, many ping/ack rounds
     for _ in range(n):
         r = rng.random()
-        if r < 0.45:
+        if chatty and r < 0.45:
+            d = rng.choice([t, t - 1, t + 1, min(t, to), to, to - 1, 1, t // 2, t + to - 1])
+            ops.append("adv %d" % max(0, d))
+            if rng.random() < 0.8:
+                ops.append("read " + rng.choice(["ack", "ack", "ping", "settings", "wupd"]))
+        elif r < 0.45:
             ops.append("adv %d" % deltas(rng, t, to))
         elif r < 0.65:
             ops.append("read " + rng.choice(["ack", "ack", "ping", "settings", "wupd"]))
@@ -85,6 +91,8 @@ def client_random(rng, n):
         elif r < 0.97 and ns > 0:
             ops.append("done")
             ns -= 1
+        elif r < 0.97:
+            ops.append("adv %d" % deltas(rng, t, to))
         elif r < 0.985:
             ops.append("done")      # mostly invalid (bad-op) unless a stream is open
             ns = max(0, ns - 1)
@@ -146,10 +154,19 @@ def server_random(rng, n):
     ops = ["start %d %d %d %d" % (t, to, mt, p)]
     nopen = 0
     unit = min(t, to)
+    polite = rng.random() < 0.6      # mostly respects the policy: long lives, strikes spread out
     for _ in range(n):
         r = rng.random()
         if r < 0.30:
             ops.append("ping")
+            if polite and rng.random() < 0.85:
+                need = mt if (p or nopen) else H2     # (approximate: nopen counts opened, not live streams)
+                d = need + rng.choice([0, 0, 1, 5])
+                if d > 40 * t:
+                    d = mt
+                ops.append("adv %d" % d)
+                if rng.random() < 0.5:
+                    ops.append("read ack")
         elif r < 0.55:
             cands = [mt, mt - 1, mt + 1, 1, 0, mt // 2]
             if H2 <= 40 * t:
